@@ -4,10 +4,12 @@ import (
 	"context"
 	"fmt"
 	"regexp"
+	goruntime "runtime"
 	"sort"
 	"strconv"
 	"strings"
 	"sync"
+	"sync/atomic"
 	"testing"
 	"testing/synctest"
 	"time"
@@ -32,6 +34,14 @@ import (
 // ContextWithTeardown from reader goroutines inside a synctest bubble, so that "blocked until
 // bootstrapped" is an observation (the reader is parked at synctest.Wait() and completes after
 // the mark), vs Cosi.Model.Cache (binary searches transcribed) and Cosi.Spec.Cache.
+// Interleavings INSIDE a reader call: every cached object is a cchHookRes whose Metadata() / DeepCopy()
+// report to the case's cchHook; a reader op with `rop=put|remove .. at=<k>` arms the hook so that the k-th
+// such call made by the cache on behalf of that reader starts the racing CachePut / CacheRemove on a second
+// goroutine and yields to it (a bounded number of times: if the reader is inside a critical section of the
+// handler's mutex the racing call cannot finish and runs right after the section). Whatever k is, the
+// property's answer is that of the sequence [reader op; racing op] — each method is one critical section
+// (Cosi.Model.CacheConc, Cosi.C15C.conc_refines_atomic) — so the model needs no k; a handler that releases
+// its mutex between a lookup and the use of what it found lets the racing call land in between.
 //
 // engine cacherun (black box): the REAL controller runtime with cached kinds
 // (options.WithCachedResource), write histories before and after Run, bursts of writes, a
@@ -115,6 +125,72 @@ func cchBuild(typ string, a Args) *TRes {
 	r.spec = TSpec{S: s}
 
 	return r
+}
+
+// cchHook lets the harness run an operation at a chosen point INSIDE a cache call of another goroutine.
+type cchHook struct {
+	left  atomic.Int64 // Metadata()/DeepCopy() calls left before the armed operation starts; <= 0: not armed
+	fired atomic.Bool
+	op    func()
+	done  chan struct{}
+}
+
+// cchRaceYields bounds how long the goroutine that hit the hook gives way to the racing operation.
+const cchRaceYields = 200
+
+func (h *cchHook) hit() {
+	if h == nil || h.left.Load() <= 0 {
+		return
+	}
+
+	if h.left.Add(-1) != 0 {
+		return
+	}
+
+	h.fired.Store(true)
+
+	op, done := h.op, h.done
+
+	go func() {
+		defer close(done)
+		defer func() { _ = recover() }() //nolint:errcheck
+
+		op()
+	}()
+
+	for range cchRaceYields {
+		select {
+		case <-done:
+			return
+		default:
+		}
+
+		goruntime.Gosched()
+	}
+}
+
+// cchHookRes is what the white-box engine puts into the cache: a TRes whose accessors report to the hook.
+// Copies handed out by the cache are plain TRes (only calls made by the cache on its own objects count).
+type cchHookRes struct {
+	*TRes
+	hk *cchHook
+}
+
+func (r *cchHookRes) Metadata() *resource.Metadata {
+	r.hk.hit()
+
+	return r.TRes.Metadata()
+}
+
+func (r *cchHookRes) DeepCopy() resource.Resource { //nolint:ireturn
+	r.hk.hit()
+
+	return r.TRes.DeepCopy()
+}
+
+// cchRaceArgs maps the `r`-prefixed keys of a racing operation to the keys cchBuild reads.
+func cchRaceArgs(a Args) Args {
+	return Args{"id": a["rid"], "ver": a["rver"], "phase": a["rphase"], "l": a["rl"], "s": a["rs"]}
 }
 
 func cchListOpts(a Args) []state.ListOption {
@@ -215,7 +291,7 @@ func (*cchEng) Cases(thorough bool) int {
 }
 
 func (*cchEng) Rule() string {
-	return "random append/put/remove/mark sequences on the real ResourceCache with concurrent reader goroutines (get, selector-filtered list, teardown context) under synctest; non-trivial = at least one reader was parked before the mark and released by it, the slice took at least three different lengths (inserts and deletions happened), and a put/remove cancelled a teardown context that was open before it; distinct by hash of the op lines"
+	return "random append/put/remove/mark sequences on the real ResourceCache with concurrent reader goroutines (get, selector-filtered list, teardown context) under synctest, a third of the readers with a racing put/remove started from INSIDE their cache call (hooked Metadata()/DeepCopy() of the cached objects, hook position 1..6; corpus: every reader kind x racing op x position); non-trivial = at least one reader was parked before the mark and released by it, the slice took at least three different lengths (inserts and deletions happened), and a put/remove cancelled a teardown context that was open before it; distinct by hash of the op lines"
 }
 
 func (*cchEng) NonTrivial(c Case, out []string) bool {
@@ -339,6 +415,9 @@ func (e *cchEng) Exec(t *testing.T, c Case) []string {
 
 		var readers []*cchReader // in start order; reader numbers are ascending
 
+		hook := &cchHook{}
+		build := func(a Args) resource.Resource { return &cchHookRes{TRes: cchBuild("T1", a), hk: hook} } //nolint:ireturn
+
 		byN := func(n int) *cchReader {
 			for _, rd := range readers {
 				if rd.n == n {
@@ -370,6 +449,38 @@ func (e *cchEng) Exec(t *testing.T, c Case) []string {
 			return o
 		}
 
+		// raced runs a reader op with a racing CachePut / CacheRemove started from inside the reader's cache call
+		raced := func(op string, a Args, start func() *cchReader) string {
+			ra := cchRaceArgs(a)
+			racing := func() { cache.CachePut(build(ra)) }
+
+			if a["rop"] == "remove" {
+				racing = func() { cache.CacheRemove(build(ra)) }
+			}
+
+			hook.op, hook.done = racing, make(chan struct{})
+			hook.fired.Store(false)
+			hook.left.Store(int64(max(a.Int("at"), 1)))
+
+			rd := start()
+			readers = append(readers, rd)
+			sortReaders()
+			synctest.Wait()
+			hook.left.Store(0)
+
+			if !hook.fired.Load() { // the reader is parked, or made fewer calls: the operation simply follows it
+				racing()
+				synctest.Wait()
+			}
+
+			o := "blocked"
+			if rd.finished() {
+				o = rd.out("~")
+			}
+
+			return fmt.Sprintf("%s out=%s len=%d ctxs=%s", op, o, cache.Len("n1", "T1"), cchCtxs(readers))
+		}
+
 		for _, line := range c.Ops {
 			op, a := ParseLine(line)
 
@@ -388,15 +499,15 @@ func (e *cchEng) Exec(t *testing.T, c Case) []string {
 
 				switch op {
 				case "append":
-					cache.CacheAppend(cchBuild("T1", a))
+					cache.CacheAppend(build(a))
 					synctest.Wait()
 					o = fmt.Sprintf("ok len=%d", cache.Len("n1", "T1"))
 				case "put":
-					cache.CachePut(cchBuild("T1", a))
+					cache.CachePut(build(a))
 					synctest.Wait()
 					o = fmt.Sprintf("ok len=%d ctxs=%s", cache.Len("n1", "T1"), cchCtxs(readers))
 				case "remove":
-					cache.CacheRemove(cchBuild("T1", a))
+					cache.CacheRemove(build(a))
 					synctest.Wait()
 					o = fmt.Sprintf("ok len=%d ctxs=%s", cache.Len("n1", "T1"), cchCtxs(readers))
 				case "mark":
@@ -428,36 +539,60 @@ func (e *cchEng) Exec(t *testing.T, c Case) []string {
 				case "get":
 					ptr := resource.NewMetadata("n1", "T1", a["id"], resource.VersionUndefined)
 
-					o = reader(op, cchStartReader(a.Int("r"), func(ctx context.Context) (string, string, context.Context) {
-						r, err := cache.Get(ctx, ptr)
-						if err != nil {
-							return cchReadErr(ctx, err)
-						}
+					start := func() *cchReader {
+						return cchStartReader(a.Int("r"), func(ctx context.Context) (string, string, context.Context) {
+							r, err := cache.Get(ctx, ptr)
+							if err != nil {
+								return cchReadErr(ctx, err)
+							}
 
-						return "res", cchItem(r), nil
-					}))
+							return "res", cchItem(r), nil
+						})
+					}
+
+					if _, ok := a["rop"]; ok {
+						o = raced(op, a, start)
+					} else {
+						o = reader(op, start())
+					}
 				case "list":
 					opts := cchListOpts(a)
 
-					o = reader(op, cchStartReader(a.Int("r"), func(ctx context.Context) (string, string, context.Context) {
-						l, err := cache.List(ctx, kind, opts...)
-						if err != nil {
-							return cchReadErr(ctx, err)
-						}
+					start := func() *cchReader {
+						return cchStartReader(a.Int("r"), func(ctx context.Context) (string, string, context.Context) {
+							l, err := cache.List(ctx, kind, opts...)
+							if err != nil {
+								return cchReadErr(ctx, err)
+							}
 
-						return "items", cchItems(l.Items), nil
-					}))
+							return "items", cchItems(l.Items), nil
+						})
+					}
+
+					if _, ok := a["rop"]; ok {
+						o = raced(op, a, start)
+					} else {
+						o = reader(op, start())
+					}
 				case "ctx":
 					ptr := resource.NewMetadata("n1", "T1", a["id"], resource.VersionUndefined)
 
-					o = reader(op, cchStartReader(a.Int("r"), func(ctx context.Context) (string, string, context.Context) {
-						tctx, err := cache.ContextWithTeardown(ctx, ptr)
-						if err != nil {
-							return cchReadErr(ctx, err)
-						}
+					start := func() *cchReader {
+						return cchStartReader(a.Int("r"), func(ctx context.Context) (string, string, context.Context) {
+							tctx, err := cache.ContextWithTeardown(ctx, ptr)
+							if err != nil {
+								return cchReadErr(ctx, err)
+							}
 
-						return "ctx", "", tctx
-					}))
+							return "ctx", "", tctx
+						})
+					}
+
+					if _, ok := a["rop"]; ok {
+						o = raced(op, a, start)
+					} else {
+						o = reader(op, start())
+					}
 				case "cancel":
 					rd := byN(a.Int("r"))
 
@@ -527,17 +662,50 @@ func (e *cchEng) Gen(r *Rand, thorough bool, idx int) Case {
 		return fmt.Sprintf("id=%s ver=%d phase=%s l=%s s=s%d", id, 1+r.Intn(9), ph, cchGenLabels(r, ","), spec)
 	}
 
+	// race: a CachePut / CacheRemove started from inside the reader's cache call, at its at-th Metadata()/DeepCopy()
+	// call on a cached object; mostly about the reader's own ID, mostly an operation that ends a teardown context
+	race := func(id string) string {
+		if id == "" || r.Chance(1, 4) {
+			id = Pick(r, cchIDs)
+		}
+
+		at := 1 + r.Intn(6)
+
+		if r.Chance(1, 3) {
+			return fmt.Sprintf(" rop=remove rid=%s at=%d", id, at)
+		}
+
+		spec++
+
+		ph := "tearingDown"
+		if r.Chance(1, 3) {
+			ph = "running"
+		}
+
+		return fmt.Sprintf(" rop=put rid=%s rver=%d rphase=%s rl=%s rs=s%d at=%d", id, 1+r.Intn(9), ph, cchGenLabels(r, ","), spec, at)
+	}
+
 	read := func() string {
 		rn++
 
+		var line, id string
+
 		switch r.Intn(3) {
 		case 0:
-			return fmt.Sprintf("get r=%d id=%s", rn, Pick(r, cchIDs))
+			id = Pick(r, cchIDs)
+			line = fmt.Sprintf("get r=%d id=%s", rn, id)
 		case 1:
-			return fmt.Sprintf("list r=%d%s", rn, cchGenSel(r, cchIDs))
+			line = fmt.Sprintf("list r=%d%s", rn, cchGenSel(r, cchIDs))
 		default:
-			return fmt.Sprintf("ctx r=%d id=%s", rn, Pick(r, cchIDs))
+			id = Pick(r, cchIDs)
+			line = fmt.Sprintf("ctx r=%d id=%s", rn, id)
 		}
+
+		if r.Chance(1, 3) {
+			line += race(id)
+		}
+
+		return line
 	}
 
 	// bootstrap contents: an ascending subset (the domain), or out of order / with duplicates
@@ -620,8 +788,53 @@ func (e *cchEng) Gen(r *Rand, thorough bool, idx int) Case {
 	return c
 }
 
+// cchRaceCorpus enumerates, on a small bootstrapped cache, every reader kind x racing operation x hook position:
+// each position at which the cache consults one of its objects on behalf of the reader is tried once.
+func cchRaceCorpus() Case {
+	c := Case{Header: "# engine=cache corpus=races"}
+
+	for _, id := range []string{"a", "b", "c", "d"} {
+		c.Ops = append(c.Ops, fmt.Sprintf("append id=%s ver=1 phase=running l=env:prod s=s0", id))
+	}
+
+	c.Ops = append(c.Ops, "mark")
+	rn, ver := 0, 1
+
+	for _, rd := range []string{"ctx r=%d id=b", "get r=%d id=b", "list r=%d q=", "ctx r=%d id=d"} {
+		for _, rop := range []string{
+			"rop=put rid=%s rver=%d rphase=tearingDown rl= rs=td", "rop=remove rid=%s", "rop=put rid=%s rver=%d rphase=running rl=env:dev rs=up",
+		} {
+			for at := 1; at <= 6; at++ {
+				rn++
+				ver++
+
+				id := "b"
+				if strings.HasSuffix(rd, "id=d") {
+					id = "d"
+				}
+
+				// restore the resource the race is about
+				c.Ops = append(c.Ops, fmt.Sprintf("put id=%s ver=%d phase=running l=env:prod s=s%d", id, ver, rn))
+
+				var racing string
+				if strings.Contains(rop, "rver") {
+					ver++
+					racing = fmt.Sprintf(rop, id, ver)
+				} else {
+					racing = fmt.Sprintf(rop, id)
+				}
+
+				c.Ops = append(c.Ops, fmt.Sprintf(rd, rn)+" "+racing+fmt.Sprintf(" at=%d", at))
+			}
+		}
+	}
+
+	return c
+}
+
 func (e *cchEng) Corpus(bool) []Case {
 	return []Case{
+		cchRaceCorpus(),
 		{ // a new largest ID, a new smallest ID, replace, remove of first / last / missing
 			Header: "# engine=cache corpus=edges",
 			Ops: []string{
